@@ -482,6 +482,7 @@ def run_motion(case):
         ed.feed(case["op"])
         ed.feed(("" if k == 1 else str(k)) + case["key"])
         o1 = s.obs()
+        o1["clip"] = ed.app.clipboard.get_data().text
     return o0, o1
 
 
@@ -915,6 +916,19 @@ def ahead(lines, w, c, sub, ic, d, incl):
     return res
 
 
+def steps_in_entry(lines, w, c, sub, ic, d, incl, k):
+    """where k single-step searches, counted one by one on the independent occurrence list, end when
+    every step finds its nearest occurrence ahead inside the current entry; None when some step has
+    to leave the entry (then other entries / the wrap-around decide)"""
+    pos = c
+    for _ in range(k):
+        a = ahead(lines, w, pos, sub, ic, d, incl)
+        if not a or a[0][0] != w:
+            return None
+        pos = a[0][1]
+    return pos
+
+
 def vifix_text(t, c):
     """Vi navigation mode: the cursor does not rest behind the last character of a non-empty line"""
     a = t.rfind("\n", 0, c) + 1
@@ -1037,6 +1051,19 @@ def oracle_api(case):
             if a and a[0][0] == w and g != a[0][1]:
                 v.append({"signature": "Buffer.get_search_position | nearest occurrence in this entry missed",
                           "msg": f"lines={lines!r} widx={w} cur={c} needle={sub!r} dir={d} incl={incl}: {g} vs {a[0]}"})
+        # the position apply_search with the same arguments moves to, if that stays in this entry
+        exp = nc if nw == w else c
+        if g != exp:
+            v.append({"signature": "Buffer.get_search_position | differs from where apply_search lands",
+                      "msg": f"lines={lines!r} widx={w} cur={c} needle={sub!r} dir={d} incl={incl} ic={ic} count={k}: "
+                             f"get_search_position = {g}, apply_search goes to {(nw, nc)}"})
+        # a repeat count counts occurrences step by step: none between old and new position is skipped
+        if sub and k > 1:
+            st = steps_in_entry(lines, w, c, sub, ic, d, incl, k)
+            if st is not None and g != st:
+                v.append({"signature": "Buffer.get_search_position | count-th occurrence counted step by step missed",
+                          "msg": f"lines={lines!r} widx={w} cur={c} needle={sub!r} dir={d} incl={incl} ic={ic} "
+                                 f"count={k}: returns {g}, {k} single steps end at {st}"})
     for (i, c) in find_queries(case):
         t = lines[i]
         doc = Document(t, c)
@@ -1143,12 +1170,15 @@ def oracle_motion(case):
     if o1["widx"] != w or [x for i, x in enumerate(o1["lines"]) if i != w] != [x for i, x in enumerate(lines) if i != w]:
         bad("left the entry", "a search motion changed the history entry / other entries")
         return v
-    near = None
-    if sub and case["count"] == 1:
-        a = ahead(lines, w, c, sub, ic, d, 0)
-        if a and a[0][0] == w:
-            near = a[0][1]
-    if case["op"] == "v":
+    # the target: count single steps, each to the nearest occurrence ahead in this entry
+    near = steps_in_entry(lines, w, c, sub, ic, d, 0, case["count"]) if sub else None
+    if case["op"] == "y":
+        if o1["lines"][w] != t:
+            bad("text changed", "yanking up to a search match changed the text")
+        if near is not None and near != c and o1["clip"] != t[min(c, near):max(c, near)]:
+            bad("nearest occurrence in this entry missed",
+                f"yanked {o1['clip']!r}, the span to the count-th occurrence ({near}) is {t[min(c, near):max(c, near)]!r}")
+    elif case["op"] == "v":
         g = o1["cur"]
         if o1["lines"][w] != t:
             bad("text changed", "visual-mode search motion changed the text")
@@ -1243,6 +1273,21 @@ def exhaustive_api(tier):
             for sub in needles:
                 for ic in (0, 1):
                     yield api_case([t], sub, ic, finds=True)
+    # E6: overlapping occurrences x repeat counts 1..4 (a count is count single steps, not the count-th hit
+    #     of one non-overlapping scan): 'aa' / 'aaa' in runs of a, '.*.' style, case-insensitive 'aa' in 'AaAa'
+    for t in strings("ax", 5 if q else 6):
+        if "aaa" in t:
+            for sub in ["aa", "aaa"]:
+                yield api_case([t], sub, 0, counts=(1, 2, 3, 4))
+    for t in ["xaaaab", "xaaaaab", "aaaaaa"]:
+        yield api_case([t], "aa", 0, counts=(1, 2, 3, 4))
+        yield api_case(["aa", t, "aaa"], "aa", 0, counts=(1, 2, 3, 4))
+    for t in ["x.*.*.*", ".*.*.", "*.*.*.*"]:
+        for sub in [".*.", "*.*"]:
+            yield api_case([t], sub, 0, counts=(1, 2, 3, 4))
+    for t in ["xAaAay", "AaAaA", "aAAa"] + ([] if q else list(strings("aA", 5))):
+        yield api_case([t], "aa", 1, counts=(1, 2, 3, 4))
+        yield api_case([t], "Aa", 1, counts=(1, 2, 3, 4))
     # E4: regex metacharacters are literal
     for t in strings("a.*", 3 if q else 4):
         for sub in [".", "*", ".*", "a.", "a*", ".a", "**"]:
@@ -1661,6 +1706,19 @@ def motion_cases(tier, rng):
                             for key in ("n", "N"):
                                 yield {"kind": "motion", "ic": 0, "lines": lines, "widx": w, "cur": c, "sub": sub,
                                        "dir": d, "op": op, "key": key, "count": 1}
+    # operators with a repeat count over overlapping occurrences: d2n, c3N, y2n, v4n …
+    for lines, sub, ic in ([(["xaaaab"], "aa", 0), (["xaaaaab"], "aa", 0), (["aa", "xaaaab"], "aa", 0),
+                            (["x.*.*.*"], ".*.", 0), (["xAaAay"], "aa", 1)]):
+        w = len(lines) - 1
+        for c in range(len(lines[w]) + 1):
+            for d in (F, B):
+                for op in ("d", "c", "y", "v"):
+                    for key in ("n", "N"):
+                        for k in ((2, 3) if tier == "quick" else (1, 2, 3, 4)):
+                            if tier == "quick" and (c % 2) and op != "d":
+                                continue
+                            yield {"kind": "motion", "ic": ic, "lines": lines, "widx": w, "cur": c, "sub": sub,
+                                   "dir": d, "op": op, "key": key, "count": k}
     n = 100 if tier == "quick" else 2000
     for _ in range(n):
         ic = rng.random() < 0.3
@@ -1668,8 +1726,8 @@ def motion_cases(tier, rng):
         nl = rng.choice([1, 2, 3])
         lines = [rand_text(rng, alpha, rng.choice([0, 3, 6, 9])) for _ in range(nl)]
         w = rng.randrange(nl)
-        op = rng.choice(["v", "d"])
-        if op == "d":
+        op = rng.choice(["v", "d", "d", "c", "y"])
+        if op != "v":
             lines[w] = lines[w].replace("\n", " ")
         yield {"kind": "motion", "ic": int(ic), "lines": lines, "widx": w,
                "cur": rng.randrange(len(lines[w]) + 1), "sub": rand_needle(rng, lines, alpha, 2).replace("\n", "a"),
